@@ -499,7 +499,9 @@ class Interp:
                     for n in self.record_fields(c.ci):
                         out |= self.attr(V(sh), n, c.ci.node, {}, self.module_frame(c.ci.module, ("iter", c.ci.fq))) if n in c.fields else E
                 elif c.ci is not None and self.repo.lookup_method(c.ci, "__iter__") is not None:
-                    out |= self.elems(self.call_fn(self.repo.lookup_method(c.ci, "__iter__"), V(sh), [], {}, c.ci.node, None))
+                    m_iter = self.repo.lookup_method(c.ci, "__iter__")
+                    # the calling context is the object itself (its cell is per construction site and context)
+                    out |= self.elems(self.call_fn(m_iter, V(sh), [], {}, c.ci.node, Frame(m_iter, ("iter", sh.key), {})))
                 else:
                     out |= self.top(f"iteration over an instance of {c.ci.name if c.ci else 'an object'} is not modelled")
             elif isinstance(sh, Cls) and self.is_enum(sh.fq):
